@@ -7,7 +7,7 @@ PROPS = {
         "level": "proof",
         "harness": ["purediff", "gwrun"],
         "stages": [("pure", stage_pure, {"suites": ["can_call"], "n_quick": 20000, "n_thorough": 400000}),
-                   ("subfsm", stage_pure, {"suites": ["subfsm"], "n_quick": 3000, "n_thorough": 80000}),
+                   ("subfsm", stage_pure, {"suites": ["subfsm"], "n_quick": 3000, "n_thorough": 80000, "widen": 1}),
                    ("gw", stage_gw, {"profiles": [("access", 500, 6000), ("scacc", 500, 4000), ("accrefs", 300, 3000), ("http", 400, 3000)]})],
         "rule": "structured call lists over a 4-letter alphabet with empty/star entries, action = entry | prefix | suffix | "
                 "random | whole list | raw bytes, 10% byte-mutated; non-trivial = list with >= 2 entries; distinct by input",
@@ -99,7 +99,7 @@ PROPS = {
         "coq": ["Props/C02.v"],
         "level": "proof",
         "harness": ["gwrun", "purediff"],
-        "stages": [("pure", stage_pure, {"suites": ["gc"], "n_quick": 3000, "n_thorough": 60000}),
+        "stages": [("pure", stage_pure, {"suites": ["gc"], "n_quick": 3000, "n_thorough": 60000, "widen": 1}),
                    ("gw", stage_gw, {"profiles": [("refs", 400, 4000), ("churn", 400, 4000), ("accrefs", 300, 2000), ("reset", 250, 1500), ("access", 200, 1000), ("legacy", 200, 1500), ("scgraph", 300, 2500), ("gets", 0, 1500), ("wild", 0, 1500)]})],
         "rule": "as C01 with reference-changing events and unsubscribes; the reference client (Spec/Client.v) retains what is reachable from "
                 "direct subscriptions and outstanding subscribe/get requests; after every frame: no dangling reference, no event for an "
@@ -127,12 +127,12 @@ PROPS = {
         "level": "proof",
         "harness": ["gwrun", "purediff"],
         "stages": [("pure", stage_pure, {"suites": ["dispatch"], "n_quick": 4000, "n_thorough": 80000}),
-                   ("subfsm", stage_pure, {"suites": ["subfsm"], "n_quick": 3000, "n_thorough": 80000}),
+                   ("subfsm", stage_pure, {"suites": ["subfsm"], "n_quick": 3000, "n_thorough": 80000, "widen": 1}),
                    ("gw", stage_gw, {"profiles": [("basic", 200, 2000), ("refs", 200, 2500), ("churn", 300, 3000), ("access", 300, 2500), ("scacc", 300, 2500), ("reset", 200, 1500), ("accrefs", 200, 1500), ("http", 250, 2000), ("scthr1", 400, 3000), ("scthr2", 200, 1500), ("wild", 0, 1500)]})],
         "rule": "as C01; response ledger: every response matches exactly one outstanding request id of that connection, nothing outstanding at quiescence; "
                 "plus the dispatcher differential (exactly one immediate reply or one requester call per method string)",
         "assumptions": [],
-        "technique": "Coq proof (dispatcher: forwarded or invalidRequest, Proofs/RidPartProofs.v) + Coq response-ledger monitor evaluated on scheduled traces of the real gateway",
+        "technique": "Coq proof (dispatcher: forwarded or invalidRequest; subscription machine: for every operation sequence no request continuation runs twice and only registered ones run) + direct-drive correspondence of one real Subscription (VerifSub) + Coq response-ledger monitor evaluated on scheduled traces of the real gateway",
         "level_text": "Dispatcher totality proved; the exactly-one-response statement is the extracted monitor on explored histories",
         "level_note": "trusted: Coq kernel, extraction, the harness (mock messaging system, consistent mock service, scheduler hooks, frame abstraction in harness/internal/gw); task atomicity (DESIGN section 4); modelled not verified: encoding/json, gorilla/websocket",
     },
@@ -153,14 +153,14 @@ PROPS = {
         "level": "proof",
         "harness": ["gwrun", "purediff"],
         "stages": [("pure", stage_pure, {"suites": ["can_get"], "n_quick": 10, "n_thorough": 10}),
-                   ("subfsm", stage_pure, {"suites": ["subfsm"], "n_quick": 4000, "n_thorough": 80000}),
+                   ("subfsm", stage_pure, {"suites": ["subfsm"], "n_quick": 4000, "n_thorough": 80000, "widen": 1}),
                    ("gw", stage_gw, {"profiles": [("access", 500, 6000), ("scacc", 500, 4000), ("accrefs", 300, 3000), ("http", 400, 3000), ("basic", 100, 1200), ("wild", 0, 1000)]})],
         "rule": "histories with a consistent access policy per (token, resource) that changes only together with a reaccess event, token event or "
                 "system reset; every access outcome (grant, get:false, accessDenied, internal error, timeout); subscribe/get/call/auth with "
                 "resource responses, concurrent requests on one resource; monitor: every data delivery for a directly requested resource needs an "
                 "answered get grant for that connection and resource requested after every invalidation that had been followed by a quiescent point",
         "assumptions": ["an invalidation counts as having reached the gateway once a quiescent point followed it (the gateway's own processing order inside a busy period is not observable)"],
-        "technique": "Coq proof (CanGet verdict table; transient errors never cached) + Coq access-gating monitor (Spec/AccessMon.v, extracted) evaluated on scheduled traces of the real gateway + differential of Access.CanGet",
+        "technique": "Coq proof (CanGet verdict table; transient errors never cached; on the subscription machine a handled trigger drops the cached verdict, arms the guard and leaves a validating request outstanding - the stronger 'sent after the trigger' is refuted with the recorded finding as witness) + direct-drive correspondence of one real Subscription (VerifSub) with the extracted machine + Coq access-gating monitor (Spec/AccessMon.v, extracted) evaluated on scheduled traces of the real gateway incl. HTTP requests + differential of Access.CanGet",
         "level_text": "Verdict logic proved; the gating statement is a decidable Coq predicate over observable traces evaluated on explored histories of the real code",
         "level_note": "trusted: Coq kernel, extraction, the harness (mock messaging system, consistent mock service, scheduler hooks, frame abstraction in harness/internal/gw); task atomicity (DESIGN section 4); modelled not verified: encoding/json, gorilla/websocket",
     },
@@ -168,14 +168,14 @@ PROPS = {
         "coq": ["Props/C06.v"],
         "level": "proof",
         "harness": ["gwrun", "purediff"],
-        "stages": [("subfsm", stage_pure, {"suites": ["subfsm"], "n_quick": 4000, "n_thorough": 80000}),
+        "stages": [("subfsm", stage_pure, {"suites": ["subfsm"], "n_quick": 4000, "n_thorough": 80000, "widen": 1}),
                    ("gw", stage_gw, {"profiles": [("access", 600, 6000), ("scacc", 500, 4000), ("reset", 300, 3000), ("accrefs", 300, 3000)]})],
         "rule": "as C04 with token events on connections with and without a token, reaccess events, system resets with access patterns, triggers injected "
                 "while loading, while events are queued and while an earlier check is pending; monitor: every trigger is followed (by the next quiescent "
                 "point) by an access request with a current token for each affected direct subscription, a non-grant verdict by an unsubscribe event, and "
                 "no uniquely tagged event that reached the gateway after the trigger is delivered before the verdict",
         "assumptions": [],
-        "technique": "Coq proof (revocation removes all direct subscriptions with one event; verdict table) + Coq revocation monitor (extracted) evaluated on scheduled traces of the real gateway",
+        "technique": "Coq proof (subscription machine, every state: a pending re-check blocks every event, a busy subscription defers the trigger, a non-grant verdict revokes all direct subscriptions with one event and delivers nothing held; counter machine; verdict table) + direct-drive correspondence of one real Subscription (VerifSub) with the extracted machine + Coq revocation monitor (extracted) evaluated on scheduled traces of the real gateway",
         "level_text": "Counter/verdict logic proved; the revocation statement is a decidable Coq predicate evaluated on explored histories",
         "level_note": "trusted: Coq kernel, extraction, the harness (mock messaging system, consistent mock service, scheduler hooks, frame abstraction in harness/internal/gw); task atomicity (DESIGN section 4); modelled not verified: encoding/json, gorilla/websocket",
     },
